@@ -26,6 +26,7 @@ type World struct {
 	PkgBy   map[string]*packages.Package // by import path (all, incl. deps)
 	Prog    *ssa.Program
 	SSAPkg  map[string]*ssa.Package // module packages by short name ("provider", "xml", ...)
+	wrapperOf map[*ssa.Function]*ssa.Function // implementation -> the wrapper whose name and key it takes
 	Funcs   []*ssa.Function         // all module functions incl. anonymous, excl. mock
 	funcBy  map[string]*ssa.Function
 	alias   map[*ssa.Function]string // renamed helper -> its name in the reference tree
@@ -129,6 +130,7 @@ func loadWorld(repo string) (*World, error) {
 		w.Funcs = append(w.Funcs, fn)
 		w.funcBy[w.FuncKey(fn)] = fn
 	}
+	w.resolveWrappers()
 	w.resolveRenamedAnchors()
 	w.resolveRenamedFields()
 	sort.Slice(w.Funcs, func(i, j int) bool { return w.FuncKey(w.Funcs[i]) < w.FuncKey(w.Funcs[j]) })
@@ -163,7 +165,9 @@ func (w *World) fingerprint(fn *ssa.Function) string {
 // then keeps reporting the reference name. Ambiguous or missing matches stay unresolved (the rule reports the
 // missing anchor).
 func (w *World) resolveRenamedAnchors() {
-	w.alias = map[*ssa.Function]string{}
+	if w.alias == nil {
+		w.alias = map[*ssa.Function]string{}
+	}
 	var missing []string
 	for k := range anchorSig {
 		if w.funcBy[k] == nil {
@@ -352,6 +356,9 @@ func calleeOf(c ssa.CallInstruction) *ssa.Function {
 	}
 	switch v := com.Value.(type) {
 	case *ssa.Function:
+		if g := wrapperImpl[v]; g != nil {
+			return g // a call of a wrapper is a call of its implementation (resolveWrappers)
+		}
 		return v
 	case *ssa.MakeClosure:
 		if f, ok := v.Fn.(*ssa.Function); ok {
@@ -360,6 +367,34 @@ func calleeOf(c ssa.CallInstruction) *ssa.Function {
 	}
 	return nil
 }
+
+// fnName is fn.Name() with a wrapped implementation carrying the name of its wrapper.
+func fnName(fn *ssa.Function) string {
+	if fn == nil {
+		return ""
+	}
+	root := fn
+	for root.Parent() != nil {
+		root = root.Parent()
+	}
+	if x := implWrapper[root]; x != nil {
+		return x.Name() + strings.TrimPrefix(fn.Name(), root.Name())
+	}
+	return fn.Name()
+}
+
+var implWrapper = map[*ssa.Function]*ssa.Function{}
+
+// canon: the function a reference to fn stands for (a wrapper stands for its implementation).
+func canon(fn *ssa.Function) *ssa.Function {
+	if g := wrapperImpl[fn]; g != nil {
+		return g
+	}
+	return fn
+}
+
+// wrapperImpl: wrapper -> implementation (see resolveWrappers). Package level because calleeOf has no World.
+var wrapperImpl = map[*ssa.Function]*ssa.Function{}
 
 // calleeName renders any call target: "net/http.Error", "(*net/http.Request).FormValue",
 // "iface:provider.AuthStorage.CreateAuthRequest", "dyn".
@@ -449,6 +484,9 @@ func fnFullName(f *ssa.Function) string {
 	if n, ok := renamedFull[f]; ok {
 		return n
 	}
+	if x := implWrapper[f]; x != nil {
+		f = x // an implementation is known under its wrapper's name
+	}
 	if f.Object() != nil {
 		if fo, ok := f.Object().(*types.Func); ok {
 			return fo.FullName()
@@ -492,4 +530,98 @@ func typeKey(t types.Type) string {
 // isXMLModelPkg reports packages under pkg/provider/xml/ that declare wire structs.
 func isXMLModelPkg(p *types.Package) bool {
 	return p != nil && strings.HasPrefix(p.Path(), modPath+"/pkg/provider/xml/")
+}
+
+// resolveWrappers: a function that does nothing but hand its parameters, in order, to one other function of its
+// package - which nothing else calls or mentions - is a wrapper around its implementation (`func F(a, b) R { return
+// fImpl(a, b) }`, the result of "extract / rename and keep the old name"). The implementation takes the wrapper's
+// key and name: rules that name F analyse fImpl, and both count as F wherever functions are matched by key.
+func (w *World) resolveWrappers() {
+	sites := map[*ssa.Function]int{}
+	taken := map[*ssa.Function]bool{}
+	for _, fn := range w.Funcs {
+		var ops [16]*ssa.Value
+		for _, b := range fn.Blocks {
+			for _, in := range b.Instrs {
+				var callee ssa.Value
+				if c, ok := in.(ssa.CallInstruction); ok {
+					callee = c.Common().Value
+					if g := c.Common().StaticCallee(); g != nil {
+						sites[g]++
+					}
+				}
+				for _, op := range in.Operands(ops[:0]) {
+					if op == nil || *op == nil || *op == callee {
+						continue
+					}
+					if g, ok := (*op).(*ssa.Function); ok {
+						taken[g] = true
+					}
+				}
+			}
+		}
+	}
+	w.wrapperOf = map[*ssa.Function]*ssa.Function{}
+	wrapperImpl = map[*ssa.Function]*ssa.Function{}
+	implWrapper = map[*ssa.Function]*ssa.Function{}
+	if w.alias == nil {
+		w.alias = map[*ssa.Function]string{}
+	}
+	for _, x := range w.Funcs {
+		if x.Parent() != nil || x.Name() == "init" {
+			continue
+		}
+		g := plainDelegate(x)
+		if g == nil || g.Pkg != x.Pkg || g.Parent() != nil || sites[g] != 1 || taken[g] || g == x {
+			continue
+		}
+		if _, has := w.alias[g]; has {
+			continue
+		}
+		key := w.FuncKey(x)
+		w.alias[g] = key
+		w.alias[x] = key + "~wrapper"
+		w.wrapperOf[g] = x
+		wrapperImpl[x] = g
+		implWrapper[g] = x
+	}
+	if len(w.wrapperOf) > 0 {
+		// wrappers leave the function list; keys of implementations and of their closures are recomputed
+		var keep []*ssa.Function
+		w.funcBy = map[string]*ssa.Function{}
+		for _, fn := range w.Funcs {
+			if wrapperImpl[fn] != nil {
+				continue
+			}
+			keep = append(keep, fn)
+			w.funcBy[w.FuncKey(fn)] = fn
+		}
+		w.Funcs = keep
+	}
+}
+
+// NameOf: the name rules know a function by - the wrapper's name for an implementation (resolveWrappers), closures
+// of the implementation accordingly.
+func (w *World) NameOf(fn *ssa.Function) string {
+	if fn == nil {
+		return ""
+	}
+	root := fn
+	for root.Parent() != nil {
+		root = root.Parent()
+	}
+	if x := w.wrapperOf[root]; x != nil {
+		return x.Name() + strings.TrimPrefix(fn.Name(), root.Name())
+	}
+	return fn.Name()
+}
+
+// IsWrapper: fn is the wrapper half of a wrapper / implementation pair.
+func (w *World) IsWrapper(fn *ssa.Function) bool {
+	for _, x := range w.wrapperOf {
+		if x == fn {
+			return true
+		}
+	}
+	return false
 }
